@@ -277,6 +277,21 @@ func ttxGenStream(r *fw.Rand) ttxStream {
 			}
 		}
 		us = append(us, ttxUnit(0x03, 0xe4, m, 0, hdr))
+		if sameMag && r.Bool() {
+			// the other page brings its own X/28/0 format 1 packet designating some other default character set (a
+			// Polish or Cyrillic text page next to the subtitle page): it says nothing about the selected page
+			var x [40]byte
+			for i := range x {
+				x[i] = byte(r.Intn(256))
+			}
+			x[0] = ham84(0)
+			x[1] &^= 0x0f
+			if x[2]&0x3c == 0 {
+				x[2] |= byte(r.Range(1, 15)) << 2
+			}
+			us = append(us, ttxUnit(0x03, 0xe4, m, 28, x))
+			cnt["x28_packets_of_other_pages"]++
+		}
 		for j := 0; j < r.Intn(3); j++ {
 			cells, _ := ttxGenRow(r, 0, map[string]int64{})
 			us = append(us, ttxUnit(0x03, 0xe4, m, r.Range(1, 24), cells))
@@ -385,13 +400,16 @@ func ttxGenStream(r *fw.Rand) ttxStream {
 	}
 	// PES packetisation: 1..N units per PES, headers and rows in the same or following PES
 	w := newTSWriter()
+	ttxDescTag := fw.Pick(r, []byte{0x56, 0x56, 0x46})
+	cnt[fmt.Sprintf("streams_announced_by_descriptor_0x%02x", ttxDescTag)]++
 	tables := func() {
 		w.payloadUnit(0, patSection([][2]uint16{{1, pmtPID}}), true)
 		streams := []pmtStream{{0x1b, 0x1ff0, nil}}
 		if r.Bool() {
 			streams = append(streams, pmtStream{0x03, 0x1ff1, []byte{0x0a, 4, 'e', 'n', 'g', 0}})
 		}
-		streams = append(streams, pmtStream{0x06, tpid, teletextDescriptor(0x56, mag, page)})
+		// the teletext stream is announced by a teletext descriptor or by a VBI teletext descriptor (same body)
+		streams = append(streams, pmtStream{0x06, tpid, teletextDescriptor(ttxDescTag, mag, page)})
 		if r.P(1, 3) {
 			streams = append(streams, pmtStream{0x06, tpid + 1, teletextDescriptor(0x56, 1, 0)}) // a second teletext PID: the first one is taken
 		}
